@@ -4,322 +4,322 @@ namespace Nfpm.Reviewed
 open Nfpm Nfpm.Arc
 /-- statement skeleton of apk/apk.go writeTgz -/
 def skel_apk_apk_writeTgz : List Bytes := [
-  b!"mw:=io.MultiWriter(digest,w)",
-  b!"gw:=gzip.NewWriter(mw)",
-  b!"cw:=newWriterCounter(gw)",
-  b!"bw:=bufio.NewWriterSize(cw,4096)",
-  b!"tw:=tar.NewWriter(bw)",
-  b!"builder(tw)",
-  b!"bw.Flush()",
-  b!"tw.Close()",
-  b!"if kind==tarFull{",
-  b!"bw.Flush()",
+  b!"v0:=io.MultiWriter(p4,p0)",
+  b!"v1:=gzip.NewWriter(v0)",
+  b!"v2:=newWriterCounter(v1)",
+  b!"v3:=bufio.NewWriterSize(v2,4096)",
+  b!"v4:=tar.NewWriter(v3)",
+  b!"p2(v4)",
+  b!"v3.Flush()",
+  b!"v4.Close()",
+  b!"if p1==tarFull{",
+  b!"v3.Flush()",
   b!"}",
-  b!"size:=cw.Count()",
-  b!"alignedSize:=(size+511)&^uint64(511)",
-  b!"increase:=alignedSize-size",
-  b!"if increase>0{",
-  b!"b:=make([]byte,increase)",
-  b!"cw.Write(b)",
+  b!"v5:=v2.Count()",
+  b!"v6:=(v5+511)&^uint64(511)",
+  b!"v7:=v6-v5",
+  b!"if v7>0{",
+  b!"v8:=make([]byte,v7)",
+  b!"v2.Write(v8)",
   b!"}",
-  b!"gw.Close()",
-  b!"return digest.Sum(nil),nil"
+  b!"v1.Close()",
+  b!"return p4.Sum(nil),nil"
 ]
 /-- statement skeleton of apk/apk.go Package -/
 def skel_apk_apk_Package : List Bytes := [
-  b!"if info.Platform!=\"linux\"{",
-  b!"return fmt.Errorf(\"invalid platform: %s\",info.Platform)",
+  b!"if p0.Platform!=\"linux\"{",
+  b!"return fmt.Errorf(\"...\",p0.Platform)",
   b!"}",
-  b!"info=ensureValidArch(info)",
-  b!"nfpm.PrepareForPackager(info,packagerName)",
-  b!"size:=int64(0)",
-  b!"dataDigest:=createData(&bufData,info,&size)",
-  b!"controlDigest:=createControl(&bufControl,info,size,dataDigest)",
-  b!"if info.APK.Signature.KeyFile==\"\"&&info.APK.Signature.SignFn==nil{",
-  b!"return combineToApk(apk,&bufControl,&bufData)",
+  b!"p0=ensureValidArch(p0)",
+  b!"nfpm.PrepareForPackager(p0,packagerName)",
+  b!"v1:=int64(0)",
+  b!"v2:=createData(&v0,p0,&v1)",
+  b!"v4:=createControl(&v3,p0,v1,v2)",
+  b!"if p0.APK.Signature.KeyFile==\"\"&&p0.APK.Signature.SignFn==nil{",
+  b!"return combineToApk(p1,&v3,&v0)",
   b!"}",
-  b!"createSignature(&bufSignature,info,controlDigest)",
-  b!"return combineToApk(apk,&bufSignature,&bufControl,&bufData)"
+  b!"createSignature(&v5,p0,v4)",
+  b!"return combineToApk(p1,&v5,&v3,&v0)"
 ]
 /-- statement skeleton of apk/apk.go combineToApk -/
 def skel_apk_apk_combineToApk : List Bytes := [
-  b!"for range readers{",
-  b!"io.Copy(target,tgz)",
+  b!"for range p1{",
+  b!"io.Copy(p0,v0)",
   b!"}",
   b!"return nil"
 ]
 /-- statement skeleton of apk/apk.go newItemInsideTarGz -/
 def skel_apk_apk_newItemInsideTarGz : List Bytes := [
-  b!"header.Format=tar.FormatPAX",
-  b!"header.PAXRecords=make(map[string]string)",
-  b!"hasher:=sha1.New()",
-  b!"hasher.Write(content)",
-  b!"header.PAXRecords[\"APK-TOOLS.checksum.SHA1\"]=fmt.Sprintf(\"%x\",hasher.Sum(nil))",
-  b!"out.WriteHeader(header)",
-  b!"out.Write(content)",
+  b!"p2.Format=tar.FormatPAX",
+  b!"p2.PAXRecords=make(map[string]string)",
+  b!"v0:=sha1.New()",
+  b!"v0.Write(p1)",
+  b!"p2.PAXRecords[\"APK-TOOLS.checksum.SHA1\"]=fmt.Sprintf(\"%x\",v0.Sum(nil))",
+  b!"p0.WriteHeader(p2)",
+  b!"p0.Write(p1)",
   b!"return nil"
 ]
 /-- statement skeleton of apk/apk.go copyToTarAndDigest -/
 def skel_apk_apk_copyToTarAndDigest : List Bytes := [
-  b!"contents:=os.ReadFile(file.Source)",
-  b!"header:=tar.FileInfoHeader(file,file.Source)",
-  b!"header.Mode=int64(file.Mode())",
-  b!"header.Name=files.AsRelativePath(file.Destination)",
-  b!"header.Uname=file.FileInfo.Owner",
-  b!"header.Gname=file.FileInfo.Group",
-  b!"newItemInsideTarGz(tw,contents,header)",
-  b!"*sizep+=file.Size()",
+  b!"v0:=os.ReadFile(p0.Source)",
+  b!"v1:=tar.FileInfoHeader(p0,p0.Source)",
+  b!"v1.Mode=int64(p0.Mode())",
+  b!"v1.Name=files.AsRelativePath(p0.Destination)",
+  b!"v1.Uname=p0.FileInfo.Owner",
+  b!"v1.Gname=p0.FileInfo.Group",
+  b!"newItemInsideTarGz(p1,v0,v1)",
+  b!"*p2+=p0.Size()",
   b!"return nil"
 ]
 /-- statement skeleton of apk/apk.go createBuilderControl -/
 def skel_apk_apk_createBuilderControl : List Bytes := [
-  b!"return func(tw*tar.Writer)error{var infoBuf bytes.Buffer if err:=writeControl(&infoBuf,controlData{Info:info,InstalledSi...#362898699fe4f31a"
+  b!"return func(v0*tar.Writer)error{var v1 bytes.Buffer if err:=writeControl(&v1,controlData{Info:p0,InstalledSize:p1,Dataha...#65eca5dc1961217f"
 ]
 /-- statement skeleton of deb/deb.go Package -/
 def skel_deb_deb_Package : List Bytes := [
-  b!"info=ensureValidArch(info)",
-  b!"nfpm.PrepareForPackager(withChangelogIfRequested(info),packagerName)",
-  b!"d.SetPackagerDefaults(info)",
-  b!"dataTarball,md5sums,instSize,dataTarballName:=createDataTarball(info)",
-  b!"controlTarGz:=createControl(instSize,md5sums,info)",
-  b!"debianBinary:=[]byte(\"2.0\\n\")",
-  b!"dst:=&errRecorder{Writer:deb}",
+  b!"p1=ensureValidArch(p1)",
+  b!"nfpm.PrepareForPackager(withChangelogIfRequested(p1),packagerName)",
+  b!"p0.SetPackagerDefaults(p1)",
+  b!"v0,v1,v2,v3:=createDataTarball(p1)",
+  b!"v4:=createControl(v2,v1,p1)",
+  b!"v5:=[]byte(\"2.0\\n\")",
+  b!"v6:=&errRecorder{Writer:p2}",
   b!"defer{",
-  b!"if err==nil&&dst.err!=nil{",
-  b!"fmt.Errorf(\"cannot write deb file: %w\",dst.err)",
+  b!"if err==nil&&v6.err!=nil{",
+  b!"fmt.Errorf(\"...%w\",v6.err)",
   b!"}",
   b!"}",
-  b!"w:=ar.NewWriter(dst)",
-  b!"w.WriteGlobalHeader()",
-  b!"mtime:=modtime.Get(info.MTime)",
-  b!"addArFile(w,\"debian-binary\",debianBinary,mtime)",
-  b!"addArFile(w,\"control.tar.gz\",controlTarGz,mtime)",
-  b!"addArFile(w,dataTarballName,dataTarball,mtime)",
-  b!"if info.Deb.Signature.KeyFile!=\"\"||info.Deb.Signature.SignFn!=nil{",
-  b!"sig,sigType:=doSign(info,debianBinary,controlTarGz,dataTarball,dataTarballName)",
-  b!"addArFile(w,\"_gpg\"+sigType,sig,mtime)",
+  b!"v7:=ar.NewWriter(v6)",
+  b!"v7.WriteGlobalHeader()",
+  b!"v8:=modtime.Get(p1.MTime)",
+  b!"addArFile(v7,\"debian-binary\",v5,v8)",
+  b!"addArFile(v7,\"control.tar.gz\",v4,v8)",
+  b!"addArFile(v7,v3,v0,v8)",
+  b!"if p1.Deb.Signature.KeyFile!=\"\"||p1.Deb.Signature.SignFn!=nil{",
+  b!"v9,v10:=doSign(p1,v5,v4,v0,v3)",
+  b!"addArFile(v7,\"_gpg\"+v10,v9,v8)",
   b!"}",
   b!"return nil"
 ]
 /-- statement skeleton of deb/deb.go copyToTarAndDigest -/
 def skel_deb_deb_copyToTarAndDigest : List Bytes := [
-  b!"tarFile:=os.OpenFile(file.Source,os.O_RDONLY,0o600)",
-  b!"defer tarFile.Close()",
-  b!"header:=tarHeader(file)",
-  b!"tw.WriteHeader(header)",
-  b!"digest:=md5.New()",
-  b!"io.Copy(tw,io.TeeReader(tarFile,digest))",
-  b!"fmt.Fprintf(md5w,\"%x  %s\\n\",digest.Sum(nil),header.Name)",
-  b!"return file.Size(),nil"
+  b!"v0:=os.OpenFile(p0.Source,os.O_RDONLY,0o600)",
+  b!"defer v0.Close()",
+  b!"v1:=tarHeader(p0)",
+  b!"p1.WriteHeader(v1)",
+  b!"v2:=md5.New()",
+  b!"io.Copy(p1,io.TeeReader(v0,v2))",
+  b!"fmt.Fprintf(p2,\"%x  %s\\n\",v2.Sum(nil),v1.Name)",
+  b!"return p0.Size(),nil"
 ]
 /-- statement skeleton of deb/deb.go createChangelogInsideDataTar -/
 def skel_deb_deb_createChangelogInsideDataTar : List Bytes := [
-  b!"out:=gzip.NewWriterLevel(&buf,gzip.BestCompression)",
-  b!"defer out.Close()",
-  b!"changelogContent:=formatChangelog(info)",
-  b!"io.WriteString(out,changelogContent)",
-  b!"out.Close()",
-  b!"changelogData:=buf.Bytes()",
-  b!"digest:=md5.New()",
-  b!"digest.Write(changelogData)",
-  b!"fmt.Fprintf(g,\"%x  %s\\n\",digest.Sum(nil),files.AsExplicitRelativePath(fileName),)",
-  b!"newFileInsideTar(tarw,fileName,changelogData,modtime.Get(info.MTime))",
-  b!"return int64(len(changelogData)),nil"
+  b!"v1:=gzip.NewWriterLevel(&v0,gzip.BestCompression)",
+  b!"defer v1.Close()",
+  b!"v2:=formatChangelog(p2)",
+  b!"io.WriteString(v1,v2)",
+  b!"v1.Close()",
+  b!"v3:=v0.Bytes()",
+  b!"v4:=md5.New()",
+  b!"v4.Write(v3)",
+  b!"fmt.Fprintf(p1,\"%x  %s\\n\",v4.Sum(nil),files.AsExplicitRelativePath(p3),)",
+  b!"newFileInsideTar(p0,p3,v3,modtime.Get(p2.MTime))",
+  b!"return int64(len(v3)),nil"
 ]
 /-- statement skeleton of deb/deb.go createControl -/
 def skel_deb_deb_createControl : List Bytes := [
-  b!"compress:=gzip.NewWriter(&buf)",
-  b!"out:=tar.NewWriter(compress)",
-  b!"defer out.Close()",
-  b!"defer compress.Close()",
-  b!"writeControl(&body,controlData{Info:info,InstalledSize:instSize/1024,})",
-  b!"mtime:=modtime.Get(info.MTime)",
-  b!"newFileInsideTar(out,\"./control\",body.Bytes(),mtime)",
-  b!"newFileInsideTar(out,\"./md5sums\",md5sums,mtime)",
-  b!"newFileInsideTar(out,\"./conffiles\",conffiles(info),mtime)",
-  b!"triggers:=createTriggers(info)",
-  b!"if len(triggers)>0{",
-  b!"newFileInsideTar(out,\"./triggers\",triggers,mtime)",
+  b!"v1:=gzip.NewWriter(&v0)",
+  b!"v2:=tar.NewWriter(v1)",
+  b!"defer v2.Close()",
+  b!"defer v1.Close()",
+  b!"writeControl(&v3,controlData{Info:p2,InstalledSize:p0/1024,})",
+  b!"v4:=modtime.Get(p2.MTime)",
+  b!"newFileInsideTar(v2,\"./control\",v3.Bytes(),v4)",
+  b!"newFileInsideTar(v2,\"./md5sums\",p1,v4)",
+  b!"newFileInsideTar(v2,\"./conffiles\",conffiles(p2),v4)",
+  b!"v5:=createTriggers(p2)",
+  b!"if len(v5)>0{",
+  b!"newFileInsideTar(v2,\"./triggers\",v5,v4)",
   b!"}",
-  b!"specialFiles:=map[string]*fileAndMode{\"preinst\":{fileName:info.Scripts.PreInstall,mode:0o755,},\"postinst\":{fileName:info...#61d3346b8e30a24f",
-  b!"for range maps.Keys(specialFiles){",
-  b!"dets:=specialFiles[filename]",
-  b!"if dets.fileName==\"\"{",
+  b!"v8:=map[string]*fileAndMode{\"preinst\":{fileName:p2.Scripts.PreInstall,mode:0o755,},\"postinst\":{fileName:p2.Scripts.PostI...#2071581c6f1a6b26",
+  b!"for range maps.Keys(v8){",
+  b!"v10:=v8[v9]",
+  b!"if v10.fileName==\"\"{",
   b!"continue",
   b!"}",
-  b!"newFilePathInsideTar(out,dets.fileName,filename,dets.mode,mtime)",
+  b!"newFilePathInsideTar(v2,v10.fileName,v9,v10.mode,v4)",
   b!"}",
-  b!"out.Close()",
-  b!"compress.Close()",
-  b!"return buf.Bytes(),nil"
+  b!"v2.Close()",
+  b!"v1.Close()",
+  b!"return v0.Bytes(),nil"
 ]
 /-- statement skeleton of deb/deb.go addArFile -/
 def skel_deb_deb_addArFile : List Bytes := [
-  b!"header:=ar.Header{Name:files.ToNixPath(name),Size:int64(len(body)),Mode:0o644,ModTime:date,}",
-  b!"w.WriteHeader(&header)",
-  b!"w.Write(body)",
+  b!"v0:=ar.Header{Name:files.ToNixPath(p1),Size:int64(len(p2)),Mode:0o644,ModTime:p3,}",
+  b!"p0.WriteHeader(&v0)",
+  b!"p0.Write(p2)",
   b!"return err"
 ]
 /-- statement skeleton of ipk/ipk.go createIPK -/
 def skel_ipk_ipk_createIPK : List Bytes := [
-  b!"data:=newTGZ(\"data.tar.gz\",func(tw*tar.Writer)error{var err error installSize,err=populateDataTar(info,tw)return err},)",
-  b!"control:=newTGZ(\"control.tar.gz\",func(tw*tar.Writer)error{return populateControlTar(info,tw,installSize)},)",
-  b!"mtime:=modtime.Get(info.MTime)",
-  b!"writeToFile(ipk,\"debian-binary\",[]byte(\"2.0\\n\"),mtime)",
-  b!"writeToFile(ipk,\"control.tar.gz\",control,mtime)",
-  b!"writeToFile(ipk,\"data.tar.gz\",data,mtime)",
+  b!"v1:=newTGZ(\"data.tar.gz\",func(v2*tar.Writer)error{var err error v0,err=populateDataTar(p0,v2)return err},)",
+  b!"v3:=newTGZ(\"control.tar.gz\",func(v4*tar.Writer)error{return populateControlTar(p0,v4,v0)},)",
+  b!"v5:=modtime.Get(p0.MTime)",
+  b!"writeToFile(p1,\"debian-binary\",[]byte(\"2.0\\n\"),v5)",
+  b!"writeToFile(p1,\"control.tar.gz\",v3,v5)",
+  b!"writeToFile(p1,\"data.tar.gz\",v1,v5)",
   b!"return nil"
 ]
 /-- statement skeleton of ipk/ipk.go populateControlTar -/
 def skel_ipk_ipk_populateControlTar : List Bytes := [
-  b!"cd:=controlData{Info:info,InstalledSize:instSize/1024,}",
-  b!"renderControl(&body,cd)",
-  b!"mtime:=modtime.Get(info.MTime)",
-  b!"writeToFile(out,\"./control\",body.Bytes(),mtime)",
-  b!"writeToFile(out,\"./conffiles\",conffiles(info),mtime)",
-  b!"scripts:=getScripts(info,mtime)",
-  b!"for range scripts{",
-  b!"if file.Source!=\"\"{",
-  b!"writeFile(out,&file)",
+  b!"v1:=controlData{Info:p0,InstalledSize:p2/1024,}",
+  b!"renderControl(&v0,v1)",
+  b!"v2:=modtime.Get(p0.MTime)",
+  b!"writeToFile(p1,\"./control\",v0.Bytes(),v2)",
+  b!"writeToFile(p1,\"./conffiles\",conffiles(p0),v2)",
+  b!"v3:=getScripts(p0,v2)",
+  b!"for range v3{",
+  b!"if v4.Source!=\"\"{",
+  b!"writeFile(p1,&v4)",
   b!"}",
   b!"}",
   b!"return nil"
 ]
 /-- statement skeleton of arch/arch.go Package -/
 def skel_arch_arch_Package : List Bytes := [
-  b!"if info.Platform!=\"linux\"{",
-  b!"return fmt.Errorf(\"invalid platform: %s\",info.Platform)",
+  b!"if p0.Platform!=\"linux\"{",
+  b!"return fmt.Errorf(\"...\",p0.Platform)",
   b!"}",
-  b!"info=ensureValidArch(info)",
-  b!"nfpm.PrepareForPackager(info,packagerName)",
-  b!"if !nameIsValid(info.Name){",
+  b!"p0=ensureValidArch(p0)",
+  b!"nfpm.PrepareForPackager(p0,packagerName)",
+  b!"if !nameIsValid(p0.Name){",
   b!"return ErrInvalidPkgName",
   b!"}",
-  b!"zw:=zstd.NewWriter(w)",
+  b!"v0:=zstd.NewWriter(p1)",
   b!"defer{",
-  b!"cerr:=zw.Close()",
+  b!"cerr:=v0.Close()",
   b!"if cerr!=nil&&err==nil{",
-  b!"fmt.Errorf(\"closing zstd writer: %w\",cerr)",
+  b!"fmt.Errorf(\"...%w\",cerr)",
   b!"}",
   b!"}",
-  b!"tw:=tar.NewWriter(zw)",
+  b!"v1:=tar.NewWriter(v0)",
   b!"defer{",
-  b!"cerr:=tw.Close()",
+  b!"cerr:=v1.Close()",
   b!"if cerr!=nil&&err==nil{",
-  b!"fmt.Errorf(\"closing tar writer: %w\",cerr)",
+  b!"fmt.Errorf(\"...%w\",cerr)",
   b!"}",
   b!"}",
-  b!"entries,totalSize:=createFilesInTar(info,tw)",
-  b!"pkginfoEntry:=createPkginfo(info,tw,totalSize)",
-  b!"entries=append([]MtreeEntry{*pkginfoEntry},entries...)",
-  b!"createMtree(tw,entries,modtime.Get(info.MTime))",
-  b!"return createScripts(info,tw)"
+  b!"v2,v3:=createFilesInTar(p0,v1)",
+  b!"v4:=createPkginfo(p0,v1,v3)",
+  b!"v2=append([]MtreeEntry{*v4},v2...)",
+  b!"createMtree(v1,v2,modtime.Get(p0.MTime))",
+  b!"return createScripts(p0,v1)"
 ]
 /-- statement skeleton of arch/arch.go createMtree -/
 def skel_arch_arch_createMtree : List Bytes := [
-  b!"buf:=&bytes.Buffer{}",
-  b!"gw:=pgzip.NewWriter(buf)",
-  b!"defer gw.Close()",
-  b!"io.WriteString(gw,\"#mtree\\n\")",
-  b!"for range entries{",
-  b!"entry.WriteTo(gw)",
+  b!"v0:=&bytes.Buffer{}",
+  b!"v1:=pgzip.NewWriter(v0)",
+  b!"defer v1.Close()",
+  b!"io.WriteString(v1,\"#mtree\\n\")",
+  b!"for range p1{",
+  b!"v2.WriteTo(v1)",
   b!"}",
-  b!"gw.Close()",
-  b!"tw.WriteHeader(&tar.Header{Typeflag:tar.TypeReg,Mode:0o644,Name:\".MTREE\",Size:int64(buf.Len()),ModTime:mtime,})",
-  b!"io.Copy(tw,buf)",
+  b!"v1.Close()",
+  b!"p0.WriteHeader(&tar.Header{Typeflag:tar.TypeReg,Mode:0o644,Name:\".MTREE\",Size:int64(v0.Len()),ModTime:p2,})",
+  b!"io.Copy(p0,v0)",
   b!"return err"
 ]
 /-- statement skeleton of arch/arch.go WriteTo -/
 def skel_arch_arch_WriteTo : List Bytes := [
-  b!"switch me.Type{",
+  b!"switch p0.Type{",
   b!"case files.TypeDir,files.TypeImplicitDir:",
-  b!"n:=fmt.Fprintf(w,\"./%s time=%d.0 mode=%o type=dir\\n\",me.Destination,me.Time,me.Mode,)",
-  b!"return int64(n),err",
+  b!"v0:=fmt.Fprintf(p1,\"./%s time=%d.0 mode=%o type=dir\\n\",p0.Destination,p0.Time,p0.Mode,)",
+  b!"return int64(v0),err",
   b!"case files.TypeSymlink:",
-  b!"n:=fmt.Fprintf(w,\"./%s time=%d.0 mode=%o type=link link=%s\\n\",me.Destination,me.Time,me.Mode,me.LinkSource,)",
-  b!"return int64(n),err",
+  b!"v1:=fmt.Fprintf(p1,\"./%s time=%d.0 mode=%o type=link link=%s\\n\",p0.Destination,p0.Time,p0.Mode,p0.LinkSource,)",
+  b!"return int64(v1),err",
   b!"default:",
-  b!"n:=fmt.Fprintf(w,\"./%s time=%d.0 mode=%o size=%d type=file md5digest=%x sha256digest=%x\\n\",me.Destination,me.Time,me.Mode,me.Size,me.MD5,me.SHA256,)",
-  b!"return int64(n),err",
+  b!"v2:=fmt.Fprintf(p1,\"./%s time=%d.0 mode=%o size=%d type=file md5digest=%x sha256digest=%x\\n\",p0.Destination,p0.Time,p0.Mode,p0.Size,p0.MD5,p0.SHA256,)",
+  b!"return int64(v2),err",
   b!"}"
 ]
 /-- statement skeleton of arch/arch.go createFilesInTar -/
 def skel_arch_arch_createFilesInTar : List Bytes := [
-  b!"entries:=make([]MtreeEntry,0,len(info.Contents))",
-  b!"for range info.Contents{",
-  b!"content.Destination=files.AsRelativePath(content.Destination)",
-  b!"switch content.Type{",
+  b!"v0:=make([]MtreeEntry,0,len(p0.Contents))",
+  b!"for range p0.Contents{",
+  b!"v2.Destination=files.AsRelativePath(v2.Destination)",
+  b!"switch v2.Type{",
   b!"case files.TypeDir,files.TypeImplicitDir:",
-  b!"entries=append(entries,MtreeEntry{Destination:content.Destination,Time:mtreeTime(content.ModTime()),Mode:int64(content.Mode()),Type:files.TypeDir,})",
-  b!"tw.WriteHeader(&tar.Header{Name:content.Destination,Mode:int64(content.Mode()),Typeflag:tar.TypeDir,ModTime:content.ModT...#51c41c7edb35a730",
+  b!"v0=append(v0,MtreeEntry{Destination:v2.Destination,Time:mtreeTime(v2.ModTime()),Mode:int64(v2.Mode()),Type:files.TypeDir,})",
+  b!"p1.WriteHeader(&tar.Header{Name:v2.Destination,Mode:int64(v2.Mode()),Typeflag:tar.TypeDir,ModTime:v2.ModTime(),Uname:v2....#3b8f74bb549619fa",
   b!"case files.TypeSymlink:",
-  b!"tw.WriteHeader(&tar.Header{Name:content.Destination,Linkname:content.Source,ModTime:content.ModTime(),Typeflag:tar.TypeSymlink,})",
-  b!"entries=append(entries,MtreeEntry{LinkSource:content.Source,Destination:content.Destination,Time:mtreeTime(content.ModTime()),Mode:0o777,Type:content.Type,})",
+  b!"p1.WriteHeader(&tar.Header{Name:v2.Destination,Linkname:v2.Source,ModTime:v2.ModTime(),Typeflag:tar.TypeSymlink,})",
+  b!"v0=append(v0,MtreeEntry{LinkSource:v2.Source,Destination:v2.Destination,Time:mtreeTime(v2.ModTime()),Mode:0o777,Type:v2.Type,})",
   b!"default:",
-  b!"src:=os.Open(content.Source)",
-  b!"defer src.Close()",
-  b!"header:=&tar.Header{Name:content.Destination,Mode:int64(content.Mode()),Typeflag:tar.TypeReg,Size:content.Size(),ModTime...#07842775755a9702",
-  b!"if content.FileInfo!=nil&&content.Mode()!=0{",
-  b!"header.Mode=int64(content.Mode())",
+  b!"v3:=os.Open(v2.Source)",
+  b!"defer v3.Close()",
+  b!"v4:=&tar.Header{Name:v2.Destination,Mode:int64(v2.Mode()),Typeflag:tar.TypeReg,Size:v2.Size(),ModTime:v2.ModTime(),Uname...#f42d65c6237fce7f",
+  b!"if v2.FileInfo!=nil&&v2.Mode()!=0{",
+  b!"v4.Mode=int64(v2.Mode())",
   b!"}",
-  b!"if content.FileInfo!=nil&&!content.ModTime().IsZero(){",
-  b!"header.ModTime=content.ModTime()",
+  b!"if v2.FileInfo!=nil&&!v2.ModTime().IsZero(){",
+  b!"v4.ModTime=v2.ModTime()",
   b!"}",
-  b!"if content.FileInfo!=nil&&content.Size()!=0{",
-  b!"header.Size=content.Size()",
+  b!"if v2.FileInfo!=nil&&v2.Size()!=0{",
+  b!"v4.Size=v2.Size()",
   b!"}",
-  b!"tw.WriteHeader(header)",
-  b!"sha256Hash:=sha256.New()",
-  b!"md5Hash:=md5.New()",
-  b!"w:=io.MultiWriter(tw,sha256Hash,md5Hash)",
-  b!"io.Copy(w,src)",
-  b!"entries=append(entries,MtreeEntry{Destination:content.Destination,Time:mtreeTime(content.ModTime()),Mode:int64(content.M...#3e4a7af38df4eb75",
-  b!"totalSize+=content.Size()",
+  b!"p1.WriteHeader(v4)",
+  b!"v5:=sha256.New()",
+  b!"v6:=md5.New()",
+  b!"v7:=io.MultiWriter(p1,v5,v6)",
+  b!"io.Copy(v7,v3)",
+  b!"v0=append(v0,MtreeEntry{Destination:v2.Destination,Time:mtreeTime(v2.ModTime()),Mode:int64(v2.Mode()),Size:v2.Size(),Typ...#1c18682b357b9f69",
+  b!"v1+=v2.Size()",
   b!"}",
   b!"}",
-  b!"return entries,totalSize,nil"
+  b!"return v0,v1,nil"
 ]
 /-- statement skeleton of ipk/tar.go newTGZ -/
 def skel_ipk_tar_newTGZ : List Bytes := [
-  b!"gz:=gzip.NewWriter(&buf)",
-  b!"tarball:=tar.NewWriter(gz)",
-  b!"defer gz.Close()",
-  b!"defer tarball.Close()",
-  b!"populate(tarball)",
-  b!"tarball.Close()",
-  b!"gz.Close()",
-  b!"return buf.Bytes(),nil"
+  b!"v1:=gzip.NewWriter(&v0)",
+  b!"v2:=tar.NewWriter(v1)",
+  b!"defer v1.Close()",
+  b!"defer v2.Close()",
+  b!"p1(v2)",
+  b!"v2.Close()",
+  b!"v1.Close()",
+  b!"return v0.Bytes(),nil"
 ]
 /-- statement skeleton of ipk/tar.go writeFile -/
 def skel_ipk_tar_writeFile : List Bytes := [
-  b!"f:=os.OpenFile(file.Source,os.O_RDONLY,0o600)",
-  b!"defer f.Close()",
-  b!"header:=tar.FileInfoHeader(file,file.Source)",
-  b!"content:=io.ReadAll(f)",
-  b!"size:=int64(len(content))",
-  b!"header.Mode=int64(file.Mode())",
-  b!"header.Format=tar.FormatGNU",
-  b!"header.Name=files.AsExplicitRelativePath(file.Destination)",
-  b!"header.Size=size",
-  b!"header.Uname=file.FileInfo.Owner",
-  b!"header.Gname=file.FileInfo.Group",
-  b!"out.WriteHeader(header)",
-  b!"n:=out.Write(content)",
-  b!"if int64(n)!=size{",
-  b!"return 0,fmt.Errorf(\"%s: failed to copy: expected %d bytes, copied %d\",file.Source,size,n)",
+  b!"v0:=os.OpenFile(p1.Source,os.O_RDONLY,0o600)",
+  b!"defer v0.Close()",
+  b!"v1:=tar.FileInfoHeader(p1,p1.Source)",
+  b!"v2:=io.ReadAll(v0)",
+  b!"v3:=int64(len(v2))",
+  b!"v1.Mode=int64(p1.Mode())",
+  b!"v1.Format=tar.FormatGNU",
+  b!"v1.Name=files.AsExplicitRelativePath(p1.Destination)",
+  b!"v1.Size=v3",
+  b!"v1.Uname=p1.FileInfo.Owner",
+  b!"v1.Gname=p1.FileInfo.Group",
+  b!"p0.WriteHeader(v1)",
+  b!"v4:=p0.Write(v2)",
+  b!"if int64(v4)!=v3{",
+  b!"return 0,fmt.Errorf(\"...\",p1.Source,v3,v4)",
   b!"}",
-  b!"return size,nil"
+  b!"return v3,nil"
 ]
 /-- statement skeleton of ipk/tar.go writeToFile -/
 def skel_ipk_tar_writeToFile : List Bytes := [
-  b!"header:=tar.Header{Name:files.AsExplicitRelativePath(filename),Size:int64(len(content)),Mode:0o644,ModTime:mtime,Typeflag:tar.TypeReg,Format:tar.FormatGNU,}",
-  b!"out.WriteHeader(&header)",
-  b!"out.Write(content)",
+  b!"v0:=tar.Header{Name:files.AsExplicitRelativePath(p1),Size:int64(len(p2)),Mode:0o644,ModTime:p3,Typeflag:tar.TypeReg,Format:tar.FormatGNU,}",
+  b!"p0.WriteHeader(&v0)",
+  b!"p0.Write(p2)",
   b!"return nil"
 ]
 /-- apk.writeTgz after the builder ran -/
 def apkTgzOps : List TgzOp := [.flushBuf, .closeTar, .flushBufIfFull, .alignPad 512, .closeGz]
 def apkBufCap : Nat := 4096
 /-- the writer stack of apk.writeTgz, outermost first: the digest sees what the output sees (below gzip) -/
-def apkTgzLayers : List Bytes := [b!"mw:=io.MultiWriter(digest,w)", b!"gw:=gzip.NewWriter(mw)", b!"cw:=newWriterCounter(gw)", b!"bw:=bufio.NewWriterSize(cw,4096)", b!"tw:=tar.NewWriter(bw)"]
+def apkTgzLayers : List Bytes := [b!"v0:=io.MultiWriter(p4,p0)", b!"v1:=gzip.NewWriter(v0)", b!"v2:=newWriterCounter(v1)", b!"v3:=bufio.NewWriterSize(v2,4096)", b!"v4:=tar.NewWriter(v3)"]
 end Nfpm.Reviewed
